@@ -183,6 +183,10 @@ def assert_repo():
 
 
 def worker_main(prop, tier, seed, shard, nshards, out):
+    import faulthandler
+    import signal
+
+    faulthandler.register(signal.SIGUSR1, all_threads=True)   # the parent asks for stacks before a watchdog kill
     mod = load_check(prop)
     assert_repo()
     ctx = Ctx(prop, tier, seed, shard, nshards)
@@ -192,8 +196,16 @@ def worker_main(prop, tier, seed, shard, nshards, out):
         ctx.count("stopped_early_after_many_violations")
     except BaseException:  # harness failure: never a verdict
         ctx.unsure("worker exception: " + traceback.format_exc()[-1500:])
-    with open(out, "w") as fh:
+    with open(out + ".tmp", "w") as fh:
         json.dump(ctx.dump(), fh)
+        fh.flush()
+        os.fsync(fh.fileno())
+    os.replace(out + ".tmp", out)
+    sys.stdout.flush()
+    sys.stderr.flush()
+    # the result is complete: do not let a thread the workload left behind (a non-daemon thread of an endpoint whose
+    # disable() was given up on, a blocked socket call) keep the worker alive until the watchdog
+    os._exit(0)
 
 
 def load_known():
@@ -280,10 +292,22 @@ def main(argv):
                 rc = p.poll()
                 if rc is None:
                     if time.time() - started > timeout:
+                        import signal
+
+                        try:
+                            p.send_signal(signal.SIGUSR1)      # faulthandler dumps every thread's stack into the shard log
+                            time.sleep(1.0)
+                        except OSError:
+                            pass
                         p.kill()
                         p.wait()
-                        dead.append(f"shard {k} exceeded the {timeout}s watchdog")
                         log.close()
+                        try:
+                            with open(os.path.join(tmpdir, f"{k}.log"), "rb") as fh:
+                                tail = fh.read()[-2500:].decode("utf-8", "replace")
+                        except OSError:
+                            tail = ""
+                        dead.append(f"shard {k} exceeded the {timeout}s watchdog; stacks at that moment: {tail}")
                         del running[k]
                     continue
                 log.close()
